@@ -20,19 +20,19 @@ Import ListNotations.
 Theorem C15_frame_collection : forall E ops b bk fmt rs,
   let w := fst (run E init ops) in
   nth_error (w_bks w) b = Some bk ->
-  out_obs (snd (step E w (OConvColl b rs fmt))) = ideal_obs_coll E (b_cls bk) (b_user bk) (b_collect bk) fmt rs.
+  out_obs (snd (step E w (OConvColl b rs fmt))) = ideal_obs_coll E (b_cls bk) (b_user bk) (b_collect bk) (b_opts bk) fmt rs.
 Proof. exact frame_coll_reachable. Qed.
 Print Assumptions C15_frame_collection.
 
 (* FULL STATEMENT for convert_rule (false of the faithful model, see the two refutations):
      forall E ops b bk fmt r, nth_error (w_bks (fst (run E init ops))) b = Some bk ->
-       out_obs (snd (step E _ (OConvRule b r fmt))) = ideal_obs_rule E (b_cls bk) (b_user bk) (b_collect bk) fmt r
+       out_obs (snd (step E _ (OConvRule b r fmt))) = ideal_obs_rule E (b_cls bk) (b_user bk) (b_collect bk) (b_opts bk) fmt r
    proved part: the items of the backend's pipeline object still point to that object (no later
    init of another backend took them over) and the object was built for the format asked for *)
 Theorem C15_frame_rule_partial : forall E ops b bk fmt r,
   let w := fst (run E init ops) in
   nth_error (w_bks w) b = Some bk -> owns_ok E w bk = true -> fmt_ok bk fmt = true ->
-  out_obs (snd (step E w (OConvRule b r fmt))) = ideal_obs_rule E (b_cls bk) (b_user bk) (b_collect bk) fmt r.
+  out_obs (snd (step E w (OConvRule b r fmt))) = ideal_obs_rule E (b_cls bk) (b_user bk) (b_collect bk) (b_opts bk) fmt r.
 Proof. exact frame_rule_reachable. Qed.
 Print Assumptions C15_frame_rule_partial.
 
@@ -43,7 +43,7 @@ Theorem C15_frame : forall E fmts ops b bk fmt r,
   no_sharing E fmts ops = true -> forallb (op_fmt_ok fmts) ops = true ->
   let w := fst (run E init ops) in
   nth_error (w_bks w) b = Some bk -> fmt_ok bk fmt = true ->
-  out_obs (snd (step E w (OConvRule b r fmt))) = ideal_obs_rule E (b_cls bk) (b_user bk) (b_collect bk) fmt r.
+  out_obs (snd (step E w (OConvRule b r fmt))) = ideal_obs_rule E (b_cls bk) (b_user bk) (b_collect bk) (b_opts bk) fmt r.
 Proof. exact frame_rule_no_sharing. Qed.
 Print Assumptions C15_frame.
 
@@ -74,11 +74,14 @@ Print Assumptions C15_fresh_collection.
    fetched or could not be parsed - the class templates are the original ones, every cached parse is
    what the grammar yields for its key (nothing a rule did to its copy is visible to the next rule),
    and a value list cached by an external-source transformation object is exactly what its source
-   yields: a failed fetch / parse leaves no cache entry behind *)
+   yields: a failed fetch / parse leaves no cache entry behind; the variables of a backend's pipeline
+   object are the merged definitions plus THIS backend's options (nothing of another backend) *)
 Theorem C15_state_restored : forall E ops,
   let w := fst (run E init ops) in
   (forall c, w_tpl w c = tpl0) /\ (forall k t, lookup k (w_cache w) = Some t -> e_parse E k = Some t) /\
-  (forall i it d v, w_vc w i = Some v -> valid_pair E i it -> i_tr it = TFile d -> e_src E d = Ok v).
+  (forall i it d v, w_vc w i = Some v -> valid_pair E i it -> i_tr it = TFile d -> e_src E d = Ok v) /\
+  (forall b bk L f, nth_error (w_bks w) b = Some bk -> b_last bk = Some (L, f) ->
+     w_pvars w L = init_vars E (b_cls bk) (b_user bk) (b_opts bk) f).
 Proof. exact invariant_reachable. Qed.
 Print Assumptions C15_state_restored.
 
@@ -88,7 +91,7 @@ Theorem C15_reown_refuted :
     let w := fst (run E init ops) in
     nth_error (w_bks w) b = Some bk /\ fmt_ok bk fmt = true /\ owns_ok E w bk = false /\
     o_res (out_obs (snd (step E w (OConvRule b r fmt)))) = Ok [lit "index=default (fieldC=1)"] /\
-    o_res (ideal_obs_rule E (b_cls bk) (b_user bk) (b_collect bk) fmt r) = Ok [lit "index=win (fieldC=1)"].
+    o_res (ideal_obs_rule E (b_cls bk) (b_user bk) (b_collect bk) (b_opts bk) fmt r) = Ok [lit "index=win (fieldC=1)"].
 Proof. exact reown_refuted. Qed.
 Print Assumptions C15_reown_refuted.
 
@@ -98,20 +101,20 @@ Theorem C15_stale_format_refuted :
     let w := fst (run E init ops) in
     nth_error (w_bks w) b = Some bk /\ owns_ok E w bk = true /\ fmt_ok bk fmt = false /\
     o_res (out_obs (snd (step E w (OConvRule b r fmt)))) = Ok [lit "index=default (mappedC=1)"] /\
-    o_res (ideal_obs_rule E (b_cls bk) (b_user bk) (b_collect bk) fmt r) = Ok [lit "index=default (fieldC=1)"].
+    o_res (ideal_obs_rule E (b_cls bk) (b_user bk) (b_collect bk) (b_opts bk) fmt r) = Ok [lit "index=default (fieldC=1)"].
 Proof. exact stale_format_refuted. Qed.
 Print Assumptions C15_stale_format_refuted.
 
 (* non-vacuity: a history with a conversion and a load after which the premises hold for a backend
    that already has a pipeline object *)
 Example C15_premises_inhabited :
-  let w := fst (run E_wit init [ONew 0 (Some 0%N) false; OConvRule 0%nat r_win 2; OLoad r_win]) in
+  let w := fst (run E_wit init [ONew 0 (Some 0%N) false []; OConvRule 0%nat r_win 2; OLoad r_win]) in
   exists bk, nth_error (w_bks w) 0 = Some bk /\ owns_ok E_wit w bk = true /\ fmt_ok bk 2 = true /\
              b_last bk <> None.
 Proof. exact premises_inhabited. Qed.
 
 (* ... and so is the syntactic premise, by a history with two backends that are both initialised *)
 Example C15_no_sharing_inhabited :
-  let ops := [ONew 0 (Some 0%N) false; ONew 0 None true; OInit 0%nat 2; OInit 1%nat 2; OConvRule 0%nat r_win 2] in
+  let ops := [ONew 0 (Some 0%N) false []; ONew 0 None true []; OInit 0%nat 2; OInit 1%nat 2; OConvRule 0%nat r_win 2] in
   no_sharing E_wit [0%N; 1%N; 2%N] ops = true /\ forallb (op_fmt_ok [0%N; 1%N; 2%N]) ops = true.
 Proof. split; reflexivity. Qed.
